@@ -118,6 +118,23 @@ Definition extract_lines (ls : list ustr) : extracted :=
 (* [ExtractedDoc::from_attrs] on the values of the [#[doc = ".."]] attributes *)
 Definition extract (docs : list ustr) : extracted := extract_lines (doc_lines docs).
 
+(* ---------- the item's attribute list ---------- *)
+
+(* [from_attrs] walks ALL attributes of the item: a [doc] attribute whose
+   value is a string literal contributes its lines; a [doc] attribute with any
+   other value ([#[doc = concat!(..)]], [include_str!(..)], [#[doc(hidden)]])
+   and every other attribute ([#[allow(..)]], [#[cfg(..)]], [#[deprecated]],
+   ..) contributes nothing ([Vec::new()]) and does not stop the walk *)
+Inductive item_attr :=
+| ADocLit (s : ustr)    (* #[doc = "literal"], /// .., /** .. */ *)
+| ADocExpr              (* #[doc = <not a string literal>] *)
+| AOther.               (* any other attribute *)
+
+Definition literal_docs (attrs : list item_attr) : list ustr :=
+  flat_map (fun a => match a with ADocLit s => [s] | ADocExpr => [] | AOther => [] end) attrs.
+
+Definition extract_attrs (attrs : list item_attr) : extracted := extract (literal_docs attrs).
+
 (* ---------- the specification side ---------- *)
 
 (* the non-blank characters, in order *)
